@@ -36,6 +36,9 @@ CHECKS = {
  "C09": ("exhaustive construction of all lines over a bounded tree family: chains x spellings x per-level placements of locals and of the global, expected structure known by construction",
          "180 tree configurations (6 naming variants of the subcommands incl. long-flag-alias-only, 5 kinds of global argument, defined at level 0 or 1, external subcommands none/String/OsString at the deepest level) x every chain of depth 0..2 below the root spelled every available way (name, alias, long flag, short flag, short-flag cluster carrying the level's own shorts and a value-less global) x every combination of two local flags per level (the second always in a later short group, exercising the cluster resume logic) x every subset of levels supplying the global x external tails. Oracle: reported chain == named chain; locals attributed to their level only; the global has identical value and source at every level at/below its definition, command-line source and one level's occurrences when supplied, its default otherwise; external name and arguments verbatim.",
          "Trusted: line construction in checks/src/bin/c09.rs (the expectation is built together with the line). Which level wins when a global is supplied at several levels is deliberately not asserted. Trees deeper than 3 levels or with more than 2 children are not explored.", "DESIGN.md §4 C09"),
+ "C10": ("exhaustive enumeration of lines (configurations x argv prefix tree; relation graphs x token orderings) containing every fault-free line and every single-fault mutation within the bound, classification oracle from two reference models",
+         "Part 1: every conventional / hyphen-value / positional-order configuration x every argv in A(cfg)^<=L (same bounds as C02) — the space contains every fault-free line up to L and all its single-token mutations. The documented-grammar reader's set of broken rule classes decides: none broken => must parse; rejected => kind must lie in the class of a broken rule. Part 2: every relation graph with <=2 (quick) / <=3 (thorough) edges x every ordering of <=3 distinct tokens; presence is derived from the line, R2 without conflict exemptions decides whether ArgumentConflict / MissingRequiredArgument is justified and whether a line breaking nothing is accepted. Every error anywhere: use_stderr <=> not help/version, exit code 0/2, suggested args/subcommands/values exist in the definition.",
+         "Trusted: R1 (grammar) and R2 (relations) models; kind classes listed in the evidence assumptions. Where documentation allows both outcomes (requirement broken but possibly excused by a conflict) neither is flagged.", "DESIGN.md §4 C10"),
 }
 PENDING_REASON = "check not built yet in this round (design in DESIGN.md §4); will be claimed when its checker exists"
 props = [json.loads(l) for l in open('/verif/properties.jsonl')]
